@@ -137,6 +137,15 @@ func bufReadSet(p *Prog, f *ssa.Function, prm ssa.Value, base bufWin, out map[in
 					}
 					continue
 				}
+				// encoding/binary's fixed-width loads read exactly the first 2, 4 or 8 bytes of what they are given
+				if sc != nil && sc.Pkg != nil && sc.Pkg.Pkg.Path() == "encoding/binary" {
+					if n := map[string]int64{"Uint16": 2, "Uint32": 4, "Uint64": 8}[sc.Name()]; n > 0 {
+						for k := int64(0); k < n; k++ {
+							out[w.off+k] = true
+						}
+						continue
+					}
+				}
 				if u := whole(w, at); u != "" {
 					unb = "the buffer is handed to " + calleeName(c) + ": " + u
 				}
@@ -160,7 +169,7 @@ func ruleSigPos(p *Prog, r *Report) {
 	eachCall(bufFn, func(site ssa.CallInstruction) {
 		c := site.Common()
 		if sc := c.StaticCallee(); sc != nil && isRepoFn(sc) && len(c.Args) == 1 && c.Args[0] == ssa.Value(bufFn.Params[0]) {
-			if n, ok := sc.Signature.Results().At(0).Type().(*types.Named); ok && n.Obj().Name() == "ImageType" {
+			if n, ok := sc.Signature.Results().At(0).Type().(*types.Named); ok && n.Obj().Name() == "ImageType" && dec == nil {
 				dec = sc
 			}
 		}
@@ -327,4 +336,39 @@ func uniqStrings(in []string) []string {
 	}
 	sort.Strings(out)
 	return out
+}
+
+// rulePrefix: imagetype.Buf is a function of the first `window` bytes of its argument. The read set of Buf and of
+// every library function it hands the buffer to — computed on SSA — is bounded and lies below the window of
+// spec/signatures.json. Scan, ScanBuf and ReadAt only ever pass that many bytes; a Buf that looks further gives
+// another answer for the same file depending on which entry point, or how much of the file, the caller used.
+func rulePrefix(p *Prog, r *Report) {
+	sp, _ := loadSigSpec(r)
+	if sp == nil {
+		return
+	}
+	f := p.Func("imagetype", "", "Buf")
+	key := fmt.Sprintf("imagetype.Buf | reads only the first %d bytes of its argument", sp.Window)
+	if f == nil || len(f.Params) != 1 {
+		r.Undecided("PREFIX", key, "-", "unresolved anchor")
+		return
+	}
+	read := map[int64]bool{}
+	unb := bufReadSet(p, f, f.Params[0], bufWin{0, -1}, read, map[string]bool{}, 0)
+	at := p.posStr(f.Pos())
+	if unb != "" {
+		r.Bad("PREFIX", key, at, "the bytes Buf reads are not bounded ("+unb+"): its answer depends on bytes behind the header window, which Scan, ScanBuf and ReadAt never see")
+		return
+	}
+	max := int64(-1)
+	for k := range read {
+		if k > max {
+			max = k
+		}
+	}
+	if max >= int64(sp.Window) {
+		r.Bad("PREFIX", key, at, fmt.Sprintf("Buf reads byte %d, beyond the %d-byte window the other entry points pass", max, sp.Window))
+		return
+	}
+	r.OK("PREFIX", key, at, fmt.Sprintf("%d positions read, the highest is %d", len(read), max))
 }
